@@ -198,14 +198,13 @@ def special_corruptions(rng, wal, frames, sps):
         p, sz = wr[rng.below(len(wr))]
         ps = max(q for q, c, ln in seps if q < p)
         o = p + 20 + rng.below(sz - 20)
-        fl = [(ps + 4 + i, wal[ps + 4 + i]) for i in range(4) if wal[ps + 4 + i]] + \
-             [(p + 4 + i, wal[p + 4 + i]) for i in range(4) if wal[p + 4 + i]] + [(o, 0x55)]
+        fl = [(ps + 4 + i, 0, "=") for i in range(4)] + [(p + 4 + i, 0, "=") for i in range(4)] + [(o, wal[o] ^ 0x55, "=")]
         out.append((fl, "crc-zero-unchecked"))
     cand = [(p, ln) for p, c, ln in seps if c and ln >= 16 and (ln - 16) % 4 == 0 and p > 0 and p + 12 + ln <= last - 12]
     for _ in range(min(2, len(cand))):
         p, ln = cand[rng.below(len(cand))]
         new = bytes([6, 0, 0, 0]) * ((ln - 16) // 4) + RESET_MARK
-        fl = [(p + 12 + i, wal[p + 12 + i] ^ new[i]) for i in range(ln) if wal[p + 12 + i] ^ new[i]]
+        fl = [(p + 12 + i, new[i], "=") for i in range(ln)]
         out.append((fl, "reset-mark-bypass"))
     return out
 
@@ -224,9 +223,11 @@ def mk_case(src, dst, cut, flips, reset=None):
     os.makedirs(dst, exist_ok=True)
     raw = open(os.path.join(src, "db-wal"), "rb").read()
     wal = bytearray(raw[:cut] if not reset else raw[:reset[0]] + reset_insert(reset) + raw[reset[0]:cut])
-    for off, mask in flips:
+    for fl in flips:
+        off, mask = fl[0], fl[1]
         if off < len(wal):
-            wal[off] ^= mask
+            # (off, mask) = xor; (off, value, "=") = set: independent of bytes that differ from run to run (timestamps, checksums)
+            wal[off] = (mask if len(fl) > 2 and fl[2] == "=" else wal[off] ^ mask)
     for sub in ("a", "b"):
         os.makedirs(os.path.join(dst, sub), exist_ok=True)
         shutil.copyfile(reset[1] if reset else os.path.join(src, "db"), os.path.join(dst, sub, "db"))
@@ -686,6 +687,14 @@ def replay(run, path):
         rcrc = r.get("recovering_crc", r["crc"])
         res = eval_cases(run, impl, model, wd, hist, [(r["cut"], [tuple(x) for x in r["flips"]], rcrc)], "r")[0]
         ok, why = (oracle_cut(hist, res)[:2] if not r["flips"] else oracle_flip(hist, res))
+        if ok and r.get("class") in ("reset-mark-bypass", "crc-zero-unchecked") and W.fields(res["impl_wal"]).get("rc") == "0":
+            import zlib
+            basedb = open(os.path.join(d, "db"), "rb").read()
+            mains = {"%d:%08x" % (len(basedb), zlib.crc32(basedb) & 0xffffffff)}
+            for rr in eval_cases(run, impl, model, wd, hist, [(e, []) for e, _ in sps], "rs"):
+                mains.add(W.fields(rr["impl_wal"]).get("main"))
+            if W.fields(res["impl_wal"]).get("main") not in mains:
+                ok, why = False, "the main file after recovery (%s) is not the main file of any savepoint state" % W.fields(res["impl_wal"]).get("main")
         print("history:", " ".join(r["ops"])); print("checksums/buffer mode:", r["crc"], " cut:", r["cut"], " flips:", r["flips"])
         print("log written by a process with [%s]; recovered by a process with [%s]" % (W.cfg_text(r["crc"]), W.cfg_text(rcrc)))
         print("savepoint ends in log:", [e for e, _ in sps], "log size", os.path.getsize(os.path.join(d, "db-wal")))
